@@ -282,6 +282,7 @@ def value_method(I, v, name):
     if isinstance(v, _i.PySet):
         if name == "add":
             def add(I_, a, k):
+                I_.check_mutable(v)
                 if not I_.truth(I_.contains(v, a[0])):
                     v.items.append(a[0])
             return B("set.add", add)
@@ -392,6 +393,8 @@ def str_method(I, s, name):
 def list_method(I, v, name):
     def meth(I_, a, k):
         L = v.items
+        if name in ("append", "insert", "extend", "pop", "clear"):
+            I_.check_mutable(v)
         if name == "append":
             L.append(a[0])
         elif name == "insert":
@@ -423,6 +426,8 @@ def list_method(I, v, name):
 
 def dict_method(I, d, name):
     def meth(I_, a, k):
+        if name in ("pop", "setdefault", "clear", "update"):
+            I_.check_mutable(d)
         if name == "get":
             ent = I_.dict_find(d, a[0])
             if ent is None:
@@ -748,6 +753,18 @@ def to_float(I, v):
     if isinstance(v, (int, float)):
         return float(v)
     if isinstance(v, SInt):
+        from .strings import SStrInt, DIG
+        if I.cfg.int_model == "lexical" and isinstance(v, SStrInt):
+            # float(<int>) raises OverflowError from 2**1024 (~1.8e308) on: decided on the text where it is clear
+            lead = z3.Concat(z3.Option(z3.Re("-")), z3.Star(z3.Re("0")))
+            surely_big = z3.Concat(lead, z3.Range("1", "9"), z3.Loop(DIG, 309, 309), z3.Star(DIG))
+            surely_small = z3.Concat(lead, z3.Loop(DIG, 0, 308))
+            if I.ctx.branch(SBool(z3.InRe(v.src, surely_big))):
+                I.raise_("OverflowError", "int too large to convert to float")
+            if not I.ctx.branch(SBool(z3.InRe(v.src, surely_small))):
+                I.ctx.notes.append(("imprecise", "float() of a 309-digit integer"))
+                if I.ctx.branch(I.ctx.fresh_bool("int_overflows_float")):
+                    I.raise_("OverflowError", "int too large to convert to float")
         return SReal(z3.ToReal(v.t))
     if isinstance(v, SReal):
         return v
